@@ -32,7 +32,7 @@ AStr = Opq("AbsStr")
 Cfg = Obj(SAN + "SanitizationConfig", keys_to_sanitize=Seq(AStr, kind="set"), sensitive_markers=Seq(AStr, kind="set"), replacement=AStr)
 SENSITIVE = ("(lower_of(k) in cfg(config).keys_to_sanitize or any(has_substring(lower_of(k), m) for m in cfg(config).sensitive_markers))")
 R.spec_funcs["cfg"] = lambda it, config: config if config is not None else Cfg.make(it, "default_config")
-Values = OneOf(Opq("AbsStr"), ListOf(Opq("AbsStr"), [1]))
+Values = OneOf(Opq("AbsStr"), ListOf(Opq("AbsStr"), [1, 2, 3], widen=False))  # a multi-valued entry (several Set-Cookie lines, a repeated query parameter) is a list of 2+ values
 R.contract(
     SAN + "sanitize_value",
     prop="C15",
@@ -301,3 +301,6 @@ LEVEL_TEXT = ("Deductive for sanitize_value (exact redaction set, frame) and pre
               "symbolic keys (labelled bounded); sanitize_url by exhaustive enumeration of small URLs on the real function.")
 LEVEL_NOTE = "Trusted: urllib.parse, str.lower model, requests.Request (E4), pyvc semantics (E9). The VCR `command:` field (raw argv) is not covered."
 TECHNIQUE = "contract-based deductive verification: AST->z3 VC generation with z3 strings on the real sanitizer (pyvc); exhaustive small-scope enumeration for sanitize_url"
+
+# `st run` (the wiring of the command-line options into the run configuration) is verified in C13's module; its C15_ clauses belong to this property: the same job runs here.
+SHARED_JOBS = [("C13", "schemathesis.cli.commands.run:run#wiring")]
